@@ -9,6 +9,6 @@ def setters : List Setter := [⟨"with_name", ["_name"]⟩, ⟨"with_doc", ["_do
 
 def memoGuarded : Bool := true
 
-def builderReads : List String := ["_get_build_result", "_name", "requested_arguments", "requested_results", "to_onnx", "with_name"]
+def builderReads : List String := ["_get_build_result", "requested_arguments", "requested_results", "to_onnx", "with_name"]
 
 end Generated.GraphSetters
